@@ -41,13 +41,16 @@ TEMPLATES = {
     "tojson_indent": "{{ d|tojson(indent=2) }}|{{ items|tojson(2) }}",
     "tojson": "{{ d|tojson }}|{{ items|tojson }}|{{ x|tojson }}",
     "policies": "{{ 'http://a.bc x'|urlize }}|{{ 'http://a.bc'|urlize(rel='r', target='t') }}|{{ 'a b c d e f g'|truncate(5) }}|{{ 'a b c d e f g'|truncate(5, leeway=0) }}",
+    "set_attr_of_data": "{% set d.zz = 1 %}",
+    "setblock_attr_of_data": "{% set d.zz %}v{% endset %}",
+    "set_ns_attr": "{% set ns = namespace(a=items) %}{% set ns.b %}v{% endset %}{% set ns.c = d %}{{ ns.b }}{{ ns.a|length }}",
     "libg": "{% macro gm() %}[{{ tg }}]{% endmacro %}{% set gv = 'v' ~ tg %}",
     "impg1": "{% import 'libg' as l %}{{ l.gm() }}{{ l.gv }}{{ tg }}",
     "impg2": "{% from 'libg' import gm, gv %}{{ gm() }}{{ gv }}{{ tg }}",
     "setattr": "{% set y = items %}{% set z = d %}{{ y|length }}{{ z.k }}{% for k, v in d|dictsort %}{{ k }}{{ v }}{% endfor %}",
 }
 POOL = ["imp", "fromctx", "ns", "loopstate", "cycler", "filters", "child", "macro", "setattr", "tojson_indent", "tojson",
-        "policies", "impg1", "impg2"]
+        "policies", "impg1", "impg2", "set_attr_of_data", "setblock_attr_of_data", "set_ns_attr"]
 # templates loaded with template-level globals (same names, different values)
 TEMPLATE_GLOBALS = {"impg1": {"tg": "one"}, "impg2": {"tg": "two"}}
 
